@@ -211,6 +211,38 @@ def rule_r1_stack(ctx: Ctx) -> None:
 
 
 # ------------------------------------------------------------------------------------------------ R2
+def _eager_context(u: ast.AST) -> bool:
+    p = parent(u)
+    if isinstance(p, ast.Call) and u in p.args and (call_name(p) in EAGER or call_name(p) in ("str", "extend", "update", "enumerate")):
+        return True
+    if isinstance(p, (ast.For, ast.comprehension)) and p.iter is u:
+        return True
+    return isinstance(p, ast.Starred)
+
+
+def _lazy_helper_consumed(prog, f: FunctionInfo, depth: int) -> bool:
+    """f returns a lazy iterator: true when f is called somewhere in the repository and every call consumes the result eagerly
+    (or returns it from another such helper)"""
+    if depth > 2 or not f.name.startswith("_"):
+        return False       # a public function hands the iterator to callers that are not visible
+    sites = []
+    for g in prog.functions.values():
+        if g.module is not f.module:
+            continue
+        for c in walk_local(g.node, include_nested=True):
+            if isinstance(c, ast.Call) and call_name(c) == f.name:
+                sites.append((g, c))
+    if not sites:
+        return False
+    for g, c in sites:
+        if _eager_context(c):
+            continue
+        if isinstance(parent(c), ast.Return) and g is not f and _lazy_helper_consumed(prog, g, depth + 1):
+            continue
+        return False
+    return True
+
+
 def rule_r2(ctx: Ctx) -> None:
     prog = ctx.prog
     n = 0
@@ -249,6 +281,8 @@ def rule_r2(ctx: Ctx) -> None:
                     else:
                         where = [norm(enclosing_stmt(u))[:50] for u in uses if u not in eager_uses][:2]
                         sink = f"bound to '{p.targets[0].id}' and then used lazily in {where}"
+                if isinstance(p, ast.Return) and _lazy_helper_consumed(prog, f, 0):
+                    ok = True      # a private helper that returns an iterator: every call site consumes it on the spot
                 why = f"the lazily evaluated object '{norm(g)[:60]}' is {sink}: a generator (not the declared value) ends up in the program"
             ctx.ob("C01.R2", f, g, f"lazy value {norm(g)[:50]} is consumed eagerly", ok, why)
     ctx.floor("C01.R2", n, 2, "generator / lazy-iterator expressions in synthesis code")
@@ -447,8 +481,8 @@ def rule_r5(ctx: Ctx) -> None:
                 for c in ast.walk(s_):
                     if isinstance(c, ast.Call) and call_name(c) in ("apply_constructor", "GengyList"):
                         used_later |= {a.id for a in c.args if isinstance(a, ast.Name)}
-                    if isinstance(c, ast.Return) and isinstance(c.value, ast.Name):
-                        used_later.add(c.value.id)
+                    if isinstance(c, ast.Return) and isinstance(c.value, ast.Name) and _feeds_constructor(scope, fn):
+                        used_later.add(c.value.id)     # a helper that returns the arguments to the function that constructs the node
             names = {x.func.value.id for x in apps} & used_later
             if len(names) != 1:
                 continue
@@ -472,6 +506,24 @@ def rule_r5(ctx: Ctx) -> None:
                 ctx.ob("C01.R5", fn, c, f"{fn.name}: the node is constructed from the type whose fields were enumerated", bool(same),
                        "" if same else f"fields of '{norm(gt.args[0]) if gt.args else '?'}' are enumerated but '{norm(c.args[0])}' is constructed")
     ctx.floor("C01.R5", n, 3, "field loops / comprehensions building constructor arguments")
+
+
+def _feeds_constructor(scope: list, fn: FunctionInfo) -> bool:
+    """some call of fn hands its result to apply_constructor / GengyList (directly or through one local name)"""
+    for g in scope:
+        for c in walk_local(g.node, include_nested=True):
+            if not (isinstance(c, ast.Call) and call_name(c) == fn.name):
+                continue
+            p_ = parent(c)
+            if isinstance(p_, ast.Call) and call_name(p_) in ("apply_constructor", "GengyList"):
+                return True
+            if isinstance(p_, (ast.Assign, ast.AnnAssign)):
+                tg = p_.targets[0] if isinstance(p_, ast.Assign) else p_.target
+                if isinstance(tg, ast.Name) and any(isinstance(k, ast.Call) and call_name(k) in ("apply_constructor", "GengyList")
+                                                    and any(isinstance(a, ast.Name) and a.id == tg.id for a in k.args)
+                                                    for k in walk_local(g.node, include_nested=True)):
+                    return True
+    return False
 
 
 def _stmts_after_in_block(l: ast.stmt) -> list[ast.stmt]:
